@@ -1,6 +1,6 @@
 SPECIFICATION Spec
 CONSTANTS
-  MaxLen = 4
-  Wide = FALSE
+  MaxLen = 3
+  Wide = TRUE
 INVARIANTS Disjoint Canonical Separators LeadingZeros Negation Bases PointAndExp RangeEdge
 CHECK_DEADLOCK FALSE
